@@ -70,6 +70,49 @@ func (x *ringInt) NonZeroSlots() int {
 	return n
 }
 
+// RingBuffer[any]: elements of an interface type (the zero value is the nil interface)
+type ringAny struct {
+	r   container.RingBuffer[any]
+	raw func() []any
+	pos func() (int, int, int)
+}
+
+func newRingAny(c int) ringObj {
+	rb := container.NewRingBuffer[any](uint(c))
+	return &ringAny{r: rb, raw: func() []any { b, _, _ := container.VerifRingRaw(rb); return b },
+		pos: func() (int, int, int) { b, r, w := container.VerifRingRaw(rb); return len(b), r, w }}
+}
+func anyInt(v any) int {
+	i, _ := v.(int)
+	return i
+}
+func (x *ringAny) Write(v int) error  { return x.r.Write(v) }
+func (x *ringAny) Read() (int, error) { v, err := x.r.Read(); return anyInt(v), err }
+func (x *ringAny) ReadN(n int) []int {
+	d := make([]any, n)
+	k := x.r.ReadN(d)
+	res := make([]int, k)
+	for i := 0; i < k; i++ {
+		res[i] = anyInt(d[i])
+	}
+	return res
+}
+func (x *ringAny) Skip(n int) int { return x.r.Skip(n) }
+func (x *ringAny) At(i int) int   { return anyInt(x.r.At(i)) }
+func (x *ringAny) Clear()         { x.r.Clear() }
+func (x *ringAny) Len() int       { return x.r.Len() }
+func (x *ringAny) Cap() int       { return x.r.Cap() }
+func (x *ringAny) NonZeroSlots() int {
+	n := 0
+	for _, v := range x.raw() {
+		if v != nil {
+			n++
+		}
+	}
+	return n
+}
+func (x *ringAny) Pos() (int, int, int) { return x.pos() }
+
 // RingBuffer[struct{}]: elements of size zero (a token counter); only counts, errors and panics can be observed
 type ringUnit struct {
 	r   container.RingBuffer[struct{}]
@@ -287,6 +330,9 @@ func driveRing(opt *Options) error {
 		mk := newRingInt
 		if t%2 == 1 {
 			mk = newRingPtr
+		}
+		if t%4 == 2 {
+			mk = newRingAny
 		}
 		o := mk(c)
 		tw.Emit(map[string]any{"op": "New", "cap": c})
